@@ -254,7 +254,9 @@ def run(ctx):
         "checked on generated files by check C03, not here",
         "modelled, not verified: bufio.Scanner (Formats/Lines.v), strings.Cut/SplitN/TrimSpace, the Go runtime's bounds checks as the "
         "explicit Panic outcome of the index/slice helpers",
-        "fuzz part (exploration, not proof): Go harness harness/cmd/fuzzextract - mutators, recover, parent watchdog (wall-clock deadline), "
+        "fuzz part (exploration, not proof): Go harness harness/cmd/fuzzextract - mutators (byte, token, line, JSON/TOML/YAML string leaves, zip members re-packed), a deterministic "
+        "systematic pass before the budgeted random phase, recover, validation of the returned inventory the way filesystem.runExtractor consumes it and filesystem.Run on a sample, "
+        "parent watchdog (wall-clock deadline), "
         "RLIMIT_AS + debug.SetMemoryLimit in the worker, parsing of Go stack traces for de-duplication",
     ]
     ctx.coverage["trusted_base"] = vlib.std_trusted_base(merged_pa, tb_extra)
@@ -387,8 +389,8 @@ def run(ctx):
         raise RuntimeError("fuzzextract failed: " + out[-3000:])
     fz = json.load(open(outjson))
     sysp = fz.get("systematic_pass") or {}
-    ctx.log("systematic pass (deterministic, before the budgeted random phase): value_edit_cases=%s line_edit_cases=%s unmutated_seed_cases=%s complete=%s handed out after %ss"
-            % (sysp.get("value_edit_cases"), sysp.get("line_edit_cases"), sysp.get("unmutated_seed_cases"), sysp.get("handed_out_completely"), sysp.get("handout_finished_after_s")))
+    ctx.log("systematic pass (deterministic, before the budgeted random phase): value_edit_cases=%s line_edit_cases=%s archive_edit_cases=%s unmutated_seed_cases=%s complete=%s handed out after %ss"
+            % (sysp.get("value_edit_cases"), sysp.get("line_edit_cases"), sysp.get("archive_edit_cases"), sysp.get("unmutated_seed_cases"), sysp.get("handed_out_completely"), sysp.get("handout_finished_after_s")))
     if not sysp.get("handed_out_completely"):
         raise RuntimeError("fuzzextract did not hand out the complete systematic pass")
 
@@ -432,7 +434,7 @@ def run(ctx):
     per = {}
     for name, s in fz["per_extractor"].items():
         per[name] = {k: s[k] for k in ("calls", "ok", "ok_with_packages", "errors", "panics", "timeouts", "worker_deaths", "distinct_inputs",
-                                       "nontrivial", "path_not_required", "seeds", "seed_source_calls", "paths_used", "cpu_s", "systematic_cases")}
+                                       "nontrivial", "path_not_required", "seeds", "seed_source_calls", "paths_used", "cpu_s", "systematic_cases", "engine_runs", "engine_runs_with_packages")}
     samples = list(fz.get("samples") or [])[:10]
     for f in fz["findings"][:4]:
         samples.append({"extractor": f["extractor"], "path": f["path"], "mutation_trail": f["mutation_trail"], "seed_file": f["seed_file"],
@@ -448,6 +450,7 @@ def run(ctx):
         "input_distribution": {"per_extractor": per, "mutation_operators": fz["mutation_histogram"], "input_sizes": fz["input_size_histogram"],
                                "seed_files": fz["seed_files"], "totals": tot},
         "systematic_pass": sysp,
+        "result_validation": fz.get("result_validation"),
         "fuzz": {"extractors_fuzzed": fz["extractors_fuzzed"], "skipped_extractors": fz["skipped_extractors"], "budget_s": budget,
                  "timeout_s": timeout_s, "memlimit_mib": 4096, "workers": 8, "calls_per_second": fz["calls_per_second"],
                  "wall_s": fz["wall_s"], "worker_restarts": fz["worker_restarts"],
